@@ -870,6 +870,76 @@ func deriveCorpus(c *vh.Ctx) {
 	}
 }
 
+// runFromHeaderCase: NewDataMessageFromHeader on one (header, item), judged against the property
+// itself: PType / SType other than 0 are refused first, then the Q3 rules of NewDataMessage on the
+// fields read from the header (an errored item is refused with the item error, a W-bit on an even
+// function is refused); a success carries exactly the header and the item's encoding.
+func runFromHeaderCase(c *vh.Ctx, h [10]byte, kind byte, it secs2.Item) {
+	var body []byte
+	if kind == 'O' {
+		body = it.ToBytes()
+	}
+	var arg secs2.Item
+	if kind != 'N' {
+		arg = it
+	}
+	m, err := hsms.NewDataMessageFromHeader(h, arg)
+	got := "ok"
+	if err != nil {
+		got = fr.DecErr(err)
+		if got == "B" || got == "H" {
+			got = fr.ConsErr(err)
+		} else if got == "S" {
+			got = "T" // SType (ConsErr uses S for the stream)
+		}
+	}
+	res := "E " + got
+	if got == "T" {
+		res = "E S" // case-line syntax of the model driver
+	}
+	if err == nil {
+		res = "OK " + fr.Hex(m.ToBytes())
+	}
+	line := fmt.Sprintf("H %s %c %s | %s", fr.Hex(h[:]), kind, fr.Hex(body), res)
+	c.Case(line, line, true)
+	c.Count("H/" + got)
+
+	want := "ok"
+	switch {
+	case h[4] != 0:
+		want = "P"
+	case h[5] != 0:
+		want = "T"
+	case kind == 'E':
+		want = "I"
+	case h[2]&0x80 != 0 && h[3]%2 == 0:
+		want = "R"
+	}
+	if got != want {
+		c.Fail(fmt.Sprintf("NewDataMessageFromHeader: outcome %s, but the header / item (PType %d, SType %d, W %v, function %d, item kind %c) call for %s (ok / P ptype / T stype / I item error / R W-bit on even function)",
+			got, h[4], h[5], h[2]&0x80 != 0, h[3], kind, want), line)
+		return
+	}
+	if err != nil {
+		return
+	}
+	f := m.ToBytes()
+	if !bytes.Equal(f[4:14], h[:]) {
+		c.Fail("NewDataMessageFromHeader changed the header", line)
+	}
+	if !bytes.Equal(f[14:], body) || binary.BigEndian.Uint32(f[:4]) != uint32(10+len(body)) || m.BodyLen() != len(body) {
+		c.Fail("NewDataMessageFromHeader: the body of the built frame is not the item's encoding", line)
+	}
+	if e := m.DecodeErr(); e != nil {
+		c.Fail("NewDataMessageFromHeader built a message that reports a body error", line)
+	}
+	if d, derr := hsms.DecodeHSMSMessage(f); derr != nil {
+		c.Fail("NewDataMessageFromHeader built a frame its own decoder rejects", line)
+	} else if dd, ok := d.ToDataMessage(); !ok || dd.DecodeErr() != nil {
+		c.Fail("NewDataMessageFromHeader built a frame whose body does not decode (malformed SECS-II on the wire)", line)
+	}
+}
+
 func runFromHeader(c *vh.Ctx) {
 	r := c.Rng
 	var h [10]byte
@@ -885,31 +955,31 @@ func runFromHeader(c *vh.Ctx) {
 	if r.Intn(2) == 0 {
 		h[2] &= 0x7f
 	}
-	kind := byte('O')
-	var it secs2.Item = fr.RandItem(r, 2)
-	body := it.ToBytes()
-	if r.Intn(8) == 0 {
-		kind, it, body = 'E', fr.ErrItem(r), nil
-	}
-	m, err := hsms.NewDataMessageFromHeader(h, it)
-	res := ""
-	switch {
-	case err == nil:
-		res = "OK " + fr.Hex(m.ToBytes())
+	switch k := r.Intn(8); {
+	case k < 2:
+		runFromHeaderCase(c, h, 'E', fr.ErrItem(r))
+	case k == 2:
+		runFromHeaderCase(c, h, 'N', nil)
 	default:
-		cl := fr.DecErr(err)
-		if cl == "B" || cl == "H" {
-			cl = fr.ConsErr(err)
-		}
-		res = "E " + cl
+		runFromHeaderCase(c, h, 'O', fr.RandItem(r, 2))
 	}
-	line := fmt.Sprintf("H %s %c %s | %s", fr.Hex(h[:]), kind, fr.Hex(body), res)
-	c.Case(line, line, true)
-	c.Count("H/" + strings.Fields(res)[0])
-	if err == nil {
-		f := m.ToBytes()
-		if !bytes.Equal(f[4:14], h[:]) {
-			c.Fail("NewDataMessageFromHeader changed the header", line)
+}
+
+// fromHeaderCorpus: every refusal clause on its own and combined (the order of the checks shows).
+func fromHeaderCorpus(c *vh.Ctx) {
+	errItems := []secs2.Item{secs2.B(300), secs2.L(secs2.A("ok"), secs2.B(300)), secs2.L(secs2.L(secs2.U1("abc")), secs2.U2(1))}
+	for _, pt := range []byte{0, 1, 255} {
+		for _, st := range []byte{0, 1, 9, 255} {
+			for _, b2 := range []byte{0x01, 0x7f, 0x81, 0xff} {
+				for _, fn := range []byte{0, 1, 2, 255} {
+					h := [10]byte{0x12, 0x34, b2, fn, pt, st, 9, 8, 7, 6}
+					runFromHeaderCase(c, h, 'O', secs2.U2(1, 2, 3))
+					runFromHeaderCase(c, h, 'N', nil)
+					for _, e := range errItems {
+						runFromHeaderCase(c, h, 'E', e)
+					}
+				}
+			}
 		}
 	}
 }
@@ -978,6 +1048,7 @@ func main() {
 	}
 
 	deriveCorpus(c)
+	fromHeaderCorpus(c)
 
 	// ---- random ----
 	for i := 0; i < c.N; i++ {
